@@ -422,4 +422,546 @@ theorem compile_once (o : Oracle) (h : List Op) (n : Name) :
   · rw [this.1]; unfold b2n; split <;> omega
   · rw [this.2]; unfold b2n; split <;> omega
 
+/-! ### structural invariant of the two chains -/
+
+def Distinct (c : List Entry) : Prop := c.Pairwise (fun e1 e2 => e1.table ≠ e2.table ∧ e1.id ≠ e2.id)
+
+def Below (c : List Entry) (k : Nat) : Prop := ∀ e ∈ c, e.table < k ∧ e.id < k
+
+structure CInv (c : Core) : Prop where
+  wfT : ChainWF c.tr
+  wfD : ChainWF c.disp
+  dT : Distinct c.tr
+  dD : Distinct c.disp
+  bT : Below c.tr c.next
+  bD : Below c.disp c.next
+
+theorem distinct_perm {c c' : List Entry} (p : c'.Perm c) : Distinct c' ↔ Distinct c :=
+  p.pairwise_iff (fun h => ⟨fun x => h.1 x.symm, fun x => h.2 x.symm⟩)
+
+theorem chainWF_perm {c c' : List Entry} (p : c'.Perm c) (h : ChainWF c) : ChainWF c' :=
+  fun e he => h e (p.mem_iff.mp he)
+
+theorem below_perm {c c' : List Entry} (p : c'.Perm c) {k : Nat} (h : Below c k) : Below c' k :=
+  fun e he => h e (p.mem_iff.mp he)
+
+theorem below_mono {c : List Entry} {k k' : Nat} (h : Below c k) (hk : k ≤ k') : Below c k' :=
+  fun e he => ⟨Nat.lt_of_lt_of_le (h e he).1 hk, Nat.lt_of_lt_of_le (h e he).2 hk⟩
+
+theorem push_inv (c : List Entry) (w : Option Name) (i t k k' : Nat) (hw : ChainWF c) (hd : Distinct c)
+    (hb : Below c k) (hi : k ≤ i) (ht : k ≤ t) (hi' : i < k') (ht' : t < k') (hk : k ≤ k') :
+    ChainWF (push c w i t) ∧ Distinct (push c w i t) ∧ Below (push c w i t) k' := by
+  cases w with
+  | none => exact ⟨hw, hd, below_mono hb hk⟩
+  | some n =>
+    simp only [push]
+    refine ⟨?_, ?_, ?_⟩
+    · intro e he
+      simp only [List.mem_cons] at he
+      rcases he with rfl | he
+      · exact newEntry_wf _ _ _
+      · exact hw e he
+    · refine List.Pairwise.cons ?_ hd
+      intro e he
+      have := hb e he
+      simp only [newEntry]
+      exact ⟨by omega, by omega⟩
+    · intro e he
+      simp only [List.mem_cons] at he
+      rcases he with rfl | he
+      · simp only [newEntry]; exact ⟨ht', hi'⟩
+      · exact below_mono hb hk e he
+
+theorem getTable_cinv (o : Oracle) (c : Core) (trL dispL : Option Name) (h : CInv c) :
+    CInv (getTable o c trL dispL).core ∧ c.next ≤ (getTable o c trL dispL).core.next := by
+  unfold getTable
+  dsimp only
+  have ptr := look_perm c.tr (norm trL)
+  have pd := look_perm c.disp (norm dispL)
+  generalize look c.tr (norm trL) = tl at *
+  generalize look c.disp (norm dispL) = dl at *
+  generalize want tl.1 (norm trL) = wT at *
+  generalize want dl.1 (norm dispL) = wD at *
+  have base : CInv { c with tr := tl.2, disp := dl.2 } :=
+    ⟨chainWF_perm ptr h.wfT, chainWF_perm pd h.wfD, (distinct_perm ptr).mpr h.dT, (distinct_perm pd).mpr h.dD,
+     below_perm ptr h.bT, below_perm pd h.bD⟩
+  split
+  · exact ⟨base, Nat.le_refl _⟩
+  · split
+    · obtain ⟨a1, a2, a3⟩ := push_inv tl.2 wT (c.next + 2) c.next c.next (c.next + 4) base.wfT base.dT base.bT
+        (by omega) (by omega) (by omega) (by omega) (by omega)
+      obtain ⟨b1, b2, b3⟩ := push_inv dl.2 wD (c.next + 3) (c.next + 1) c.next (c.next + 4) base.wfD base.dD base.bD
+        (by omega) (by omega) (by omega) (by omega) (by omega)
+      exact ⟨⟨a1, b1, a2, b2, a3, b3⟩, by dsimp only; omega⟩
+    · exact ⟨⟨base.wfT, base.wfD, base.dT, base.dD, below_mono base.bT (by dsimp only; omega),
+        below_mono base.bD (by dsimp only; omega)⟩, by dsimp only; omega⟩
+
+theorem setFinal_inv (e : Entry) (es : List Entry) (k : Nat) :
+    (ChainWF (e :: es) → ChainWF ({ e with finalized := true } :: es)) ∧
+    (Distinct (e :: es) → Distinct ({ e with finalized := true } :: es)) ∧
+    (Below (e :: es) k → Below ({ e with finalized := true } :: es) k) := by
+  refine ⟨?_, ?_, ?_⟩
+  · intro h x hx
+    simp only [List.mem_cons] at hx
+    rcases hx with rfl | hx
+    · exact h e (by simp)
+    · exact h x (by simp [hx])
+  · intro h
+    unfold Distinct at *
+    rw [List.pairwise_cons] at *
+    exact h
+  · intro h x hx
+    simp only [List.mem_cons] at hx
+    rcases hx with rfl | hx
+    · exact h e (by simp)
+    · exact h x (by simp [hx])
+
+theorem finalizeHead_cinv (o : Oracle) (r : Out) (h : CInv r.core) :
+    CInv (finalizeHead o r).core ∧ (finalizeHead o r).core.next = r.core.next := by
+  unfold finalizeHead
+  split
+  · rename_i a e es h1 h2
+    split
+    · exact ⟨h, rfl⟩
+    · split
+      · obtain ⟨f1, f2, f3⟩ := setFinal_inv e es r.core.next
+        refine ⟨⟨?_, h.wfD, ?_, h.dD, ?_, h.bD⟩, rfl⟩
+        · exact f1 (h2 ▸ h.wfT)
+        · exact f2 (h2 ▸ h.dT)
+        · exact f3 (h2 ▸ h.bT)
+      · exact ⟨h, rfl⟩
+  · exact ⟨h, rfl⟩
+
+theorem retarget_inv (a a' : Nat) (c : List Entry) (hw : ChainWF c) (hd : Distinct c) (hb : Below c a') :
+    ChainWF (retarget a a' c) ∧ Distinct (retarget a a' c) ∧ Below (retarget a a' c) (a' + 1) := by
+  refine ⟨?_, ?_, ?_⟩
+  · intro e he
+    simp only [retarget, List.mem_map] at he
+    obtain ⟨x, hx, rfl⟩ := he
+    have := hw x hx
+    split <;> exact this
+  · unfold Distinct retarget
+    rw [List.pairwise_map]
+    refine List.Pairwise.imp_of_mem ?_ hd
+    intro x y hx hy hxy
+    have bx := hb x hx
+    have by' := hb y hy
+    constructor
+    · split <;> split <;> (try dsimp only) <;> first | omega | exact hxy.1
+    · split <;> split <;> exact hxy.2
+  · intro e he
+    simp only [retarget, List.mem_map] at he
+    obtain ⟨x, hx, rfl⟩ := he
+    have := hb x hx
+    split <;> (try dsimp only) <;> omega
+
+theorem compileString_cinv (o : Oracle) (c : Core) (n : Name) (ok grow : Bool) (h : CInv c) :
+    CInv (compileString o c n ok grow).core := by
+  unfold compileString
+  have hg := (getTable_cinv o c (some n) (some n) h).1
+  generalize getTable o c (some n) (some n) = r at *
+  dsimp only
+  split
+  · rename_i a e es h1 h2
+    split
+    · exact hg
+    · split
+      · obtain ⟨r1, r2, r3⟩ := retarget_inv a r.core.next (e :: es) (h2 ▸ hg.wfT) (h2 ▸ hg.dT) (h2 ▸ hg.bT)
+        exact ⟨r1, hg.wfD, r2, hg.dD, r3, below_mono hg.bD (by dsimp only; omega)⟩
+      · exact hg
+  · exact hg
+
+theorem scratch_cinv (c : Core) (e : Bool) (b : Alloc.Buf) (i : Nat) (sm dm : Int) (h : CInv c) :
+    CInv (scratch c e b i sm dm).core := by
+  obtain ⟨h1, h2, h3, _⟩ := scratch_chains c e b i sm dm
+  exact ⟨h1 ▸ h.wfT, h2 ▸ h.wfD, h1 ▸ h.dT, h2 ▸ h.dD, h1 ▸ h3 ▸ h.bT, h2 ▸ h3 ▸ h.bD⟩
+
+theorem stepCore_cinv (o : Oracle) (c : Core) (op : Op) (h : CInv c) : CInv (stepCore o c op).core := by
+  cases op with
+  | get t d f =>
+    simp only [stepCore]
+    split
+    · exact (finalizeHead_cinv o _ (getTable_cinv o c t d h).1).1
+    · exact (getTable_cinv o c t d h).1
+  | compileString n ok g => exact compileString_cinv o c n ok g h
+  | scratch e b i sm dm => exact scratch_cinv c e b i sm dm h
+  | pool b => exact h
+  | free => exact h
+
+theorem init_cinv : CInv {} := by
+  refine ⟨?_, ?_, ?_, ?_, ?_, ?_⟩ <;> first | (intro e he; simp at he) | exact List.Pairwise.nil
+
+theorem step_cinv (o : Oracle) (s : State) (op : Op) (h : CInv s.core) : CInv (step o s op).1.core := by
+  cases op with
+  | get t d f => exact stepCore_cinv o s.core _ h
+  | compileString n ok g => exact stepCore_cinv o s.core _ h
+  | scratch e b i sm dm => exact stepCore_cinv o s.core _ h
+  | pool b => cases b <;> (simp only [step]; split <;> exact h)
+  | free => exact init_cinv
+
+theorem run_cinv (o : Oracle) (h : List Op) : ∀ s, CInv s.core → CInv (run o s h).1.core := by
+  induction h with
+  | nil => intro s hs; exact hs
+  | cons op ops ih => intro s hs; exact ih _ (step_cinv o s op hs)
+
+/-! ### isolation -/
+
+/-- one entry matches one name only -/
+theorem hit_inj (e : Entry) (n m : Name) (hn : e.hit n = true) (hm : e.hit m = true) : n = m := by
+  unfold Entry.hit memEq at *
+  simp only [Bool.and_eq_true, beq_iff_eq] at hn hm
+  have hl : n.length = m.length := by omega
+  have h1 := hn.2; have h2 := hm.2
+  rw [List.take_length] at h1 h2
+  rw [← h1, ← h2, hl]
+
+theorem find_skip (p : Entry → Bool) (pre suf : List Entry) (h : Entry) (hp : p h = false) :
+    (pre ++ h :: suf).find? p = (pre ++ suf).find? p := by
+  rw [List.find?_append, List.find?_append, List.find?_cons_of_neg (by simp [hp])]
+
+/-- move-to-front does not change which entry any name finds -/
+theorem find_lookup (c : List Entry) (m n : Name) :
+    (lookup c m).2.find? (·.hit n) = c.find? (·.hit n) := by
+  unfold lookup
+  cases hs : split m c with
+  | none => rfl
+  | some r =>
+    obtain ⟨pre, h, suf⟩ := r
+    obtain ⟨hc, hh, hpre⟩ := split_some m c pre h suf hs
+    dsimp only
+    rw [hc]
+    by_cases hn : h.hit n = true
+    · have : n = m := hit_inj h n m hn hh
+      subst this
+      have : pre.find? (·.hit n) = none := by
+        rw [List.find?_eq_none]; intro x hx; simp [hpre x hx]
+      rw [List.find?_append, this]
+      simp [hn]
+    · have hn' : h.hit n = false := Bool.eq_false_iff.mpr hn
+      rw [List.find?_cons_of_neg (by simpa using hn'), find_skip _ _ _ _ hn']
+
+theorem tableOf_look (c : List Entry) (l : Option Name) (n : Name) : tableOf (look c l).2 n = tableOf c n := by
+  cases l with
+  | none => rfl
+  | some m => simp only [look, tableOf, find_lookup]
+
+theorem tableOf_push (c : List Entry) (w : Option Name) (i t : Nat) (n : Name) (h : w ≠ some n) :
+    tableOf (push c w i t) n = tableOf c n := by
+  cases w with
+  | none => rfl
+  | some m =>
+    have : (newEntry i m t).hit n = false := by
+      rw [Bool.eq_false_iff]; intro hh
+      have := (hit_iff _ _ (newEntry_wf i m t)).mp hh
+      simp only [newEntry, List.take_length] at this
+      exact h (by rw [this])
+    simp only [push, tableOf]
+    rw [List.find?_cons_of_neg (by simpa using this)]
+
+theorem tableOf_setFinal (e : Entry) (es : List Entry) (n : Name) :
+    tableOf ({ e with finalized := true } :: es) n = tableOf (e :: es) n := by
+  simp only [tableOf, List.find?_cons, Entry.hit]
+  split <;> rfl
+
+/-- an operation that does not name `n` leaves the table of `n` alone in the translation chain… -/
+theorem getTable_other_tr (o : Oracle) (c : Core) (trL dispL : Option Name) (n : Name) (h : norm trL ≠ some n) :
+    tableOf (getTable o c trL dispL).core.tr n = tableOf c.tr n := by
+  unfold getTable
+  dsimp only
+  have hw : want (look c.tr (norm trL)).1 (norm trL) ≠ some n := by
+    unfold want; split
+    · exact h
+    · simp
+  split
+  · exact tableOf_look _ _ _
+  · split
+    · dsimp only; rw [tableOf_push _ _ _ _ _ hw]; exact tableOf_look _ _ _
+    · exact tableOf_look _ _ _
+
+/-- …and in the display chain -/
+theorem getTable_other_disp (o : Oracle) (c : Core) (trL dispL : Option Name) (n : Name) (h : norm dispL ≠ some n) :
+    tableOf (getTable o c trL dispL).core.disp n = tableOf c.disp n := by
+  unfold getTable
+  dsimp only
+  have hw : want (look c.disp (norm dispL)).1 (norm dispL) ≠ some n := by
+    unfold want; split
+    · exact h
+    · simp
+  split
+  · exact tableOf_look _ _ _
+  · split
+    · dsimp only; rw [tableOf_push _ _ _ _ _ hw]; exact tableOf_look _ _ _
+    · exact tableOf_look _ _ _
+
+theorem tableOf_cached (c : List Entry) (n : Name) (t : Nat) (h : tableOf c n = some t) : cached c n = true := by
+  unfold tableOf at h; unfold cached
+  cases hf : c.find? (·.hit n) with
+  | none => simp [hf] at h
+  | some e =>
+    have h1 := List.find?_some hf
+    exact List.any_eq_true.mpr ⟨e, List.mem_of_find?_eq_some hf, by simpa using h1⟩
+
+theorem want_cached (c : List Entry) (n : Name) (hc : cached c n = true) :
+    want (look c (some n)).1 (some n) = none := by
+  have h1 := lookup_isSome c n
+  rw [hc] at h1
+  simp only [look]
+  cases hx : (lookup c n).1 with
+  | none => rw [hx] at h1; simp at h1
+  | some e => simp [want]
+
+/-- what `getTable` hands back for a cached list is the cached table; nothing is compiled for that role -/
+theorem getTable_tr_cached (o : Oracle) (c : Core) (trL dispL : Option Name) (n : Name) (t : Nat)
+    (hn : norm trL = some n) (h : tableOf c.tr n = some t) :
+    (getTable o c trL dispL).res.tr = some t ∧ tableOf (getTable o c trL dispL).core.tr n = some t ∧
+    ∀ ev ∈ (getTable o c trL dispL).events, isTrCompiled n ev = false ∧ ∀ d ok, ev ≠ .compile (some n) d ok := by
+  have hw := want_cached c.tr n (tableOf_cached _ _ _ h)
+  have hl : (look c.tr (some n)).1.map (·.table) = some t := by
+    simp only [look, lookup_fst]; exact h
+  have ht := tableOf_look c.tr (some n) n
+  unfold getTable
+  dsimp only
+  rw [hn, hw]
+  generalize look c.disp (norm dispL) = dl at *
+  generalize want dl.1 (norm dispL) = wD at *
+  generalize look c.tr (some n) = tl at *
+  split
+  · exact ⟨hl, by dsimp only; rw [ht]; exact h, by simp⟩
+  · split
+    · refine ⟨by simpa using hl, by dsimp only; simp only [push]; rw [ht]; exact h, ?_⟩
+      intro ev hev
+      simp only [List.mem_singleton] at hev
+      subst hev
+      simp [isTrCompiled]
+    · refine ⟨hl, by dsimp only; rw [ht]; exact h, ?_⟩
+      intro ev hev
+      simp only [List.mem_singleton] at hev
+      subst hev
+      simp [isTrCompiled]
+
+/-- after `getTable` the translation table handed back belongs to the head of the chain, and that
+    entry is the one for the list asked for -/
+theorem getTable_head (o : Oracle) (c : Core) (m : Name) (dispL : Option Name) (a : Nat)
+    (h : (getTable o c (some m) dispL).res.tr = some a) :
+    ∃ e es, (getTable o c (some m) dispL).core.tr = e :: es ∧ e.table = a ∧ e.hit m = true := by
+  unfold getTable at *
+  dsimp only at *
+  generalize look c.disp (norm dispL) = dl at *
+  generalize want dl.1 (norm dispL) = wD at *
+  cases m with
+  | nil =>
+    exfalso
+    simp only [norm, look, want, Option.isNone_none, if_true, Option.map_none, Option.isSome_none] at h
+    split at h
+    · simp at h
+    · split at h <;> simp at h
+  | cons x xs =>
+    have hm : norm (some (x :: xs)) = some (x :: xs) := rfl
+    rw [hm] at h ⊢
+    cases hl : (lookup c.tr (x :: xs)).1 with
+    | some e0 =>
+      obtain ⟨tl, htl⟩ := lookup_head c.tr (x :: xs) e0 hl
+      have hhit : e0.hit (x :: xs) = true := by
+        rw [lookup_fst] at hl
+        have := List.find?_some hl
+        simpa using this
+      have hlk : look c.tr (some (x :: xs)) = (some e0, e0 :: tl) := by
+        simp only [look]; rw [← hl, ← htl]
+      rw [hlk] at h ⊢
+      simp only [want, Option.isNone_some, Bool.false_eq_true, if_false, Option.isNone_none, Bool.true_and,
+        Option.map_some, Option.isSome_none, push] at h ⊢
+      by_cases h1 : wD.isNone = true
+      · rw [if_pos h1] at h ⊢; exact ⟨e0, tl, rfl, by simpa using h, hhit⟩
+      · rw [if_neg h1] at h ⊢
+        by_cases h2 : o.compiles none wD = true
+        · rw [if_pos h2] at h ⊢; exact ⟨e0, tl, rfl, by simpa using h, hhit⟩
+        · rw [if_neg h2] at h ⊢; exact ⟨e0, tl, rfl, by simpa using h, hhit⟩
+    | none =>
+      have hlk : look c.tr (some (x :: xs)) = (none, (lookup c.tr (x :: xs)).2) := by
+        simp only [look]; rw [← hl]
+      rw [hlk] at h ⊢
+      simp only [want, Option.isNone_none, if_true, Option.isNone_some, Bool.false_and, Bool.false_eq_true,
+        if_false, Option.map_none, Option.isSome_some, push] at h ⊢
+      by_cases h2 : o.compiles (some (x :: xs)) wD = true
+      · rw [if_pos h2] at h ⊢
+        refine ⟨_, _, rfl, by simpa [newEntry] using h, ?_⟩
+        exact (hit_iff _ _ (newEntry_wf _ _ _)).mpr (by simp [newEntry])
+      · rw [if_neg h2] at h; simp at h
+
+theorem tableOf_retarget_other (a a' : Nat) (e : Entry) (es : List Entry) (n m : Name)
+    (hd : Distinct (e :: es)) (he : e.table = a) (hm : e.hit m = true) (hnm : n ≠ m) :
+    tableOf (retarget a a' (e :: es)) n = tableOf (e :: es) n := by
+  have hen : e.hit n = false := Bool.eq_false_iff.mpr (fun h => hnm (hit_inj e n m h hm))
+  have hes : retarget a a' es = es := by
+    unfold retarget
+    have : ∀ x ∈ es, (if x.table = a then { x with table := a' } else x) = x := by
+      intro x hx
+      have := (List.pairwise_cons.mp hd).1 x hx
+      rw [if_neg (fun h => this.1 (by rw [he, h]))]
+    rw [List.map_congr_left this, List.map_id']
+  simp only [tableOf]
+  have : retarget a a' (e :: es) = { e with table := a' } :: es := by
+    have h1 : retarget a a' (e :: es) = (if e.table = a then { e with table := a' } else e) :: retarget a a' es := rfl
+    rw [h1, if_pos he, hes]
+  rw [this, List.find?_cons_of_neg (by simpa [Entry.hit] using hen), List.find?_cons_of_neg (by simpa using hen)]
+
+theorem compileString_other (o : Oracle) (c : Core) (m : Name) (ok grow : Bool) (n : Name) (hc : CInv c)
+    (hnm : n ≠ m) :
+    tableOf (compileString o c m ok grow).core.tr n = tableOf c.tr n ∧
+    tableOf (compileString o c m ok grow).core.disp n = tableOf c.disp n := by
+  have hne : norm (some m) ≠ some n := by
+    cases m with
+    | nil => simp [norm]
+    | cons x xs => simp only [norm]; intro h; exact hnm (by simpa using h.symm)
+  have h1 := getTable_other_tr o c (some m) (some m) n hne
+  have h2 := getTable_other_disp o c (some m) (some m) n hne
+  have hg := (getTable_cinv o c (some m) (some m) hc).1
+  have hh := getTable_head o c m (some m)
+  unfold compileString
+  generalize getTable o c (some m) (some m) = r at *
+  dsimp only
+  split
+  · rename_i a e es e1 e2
+    split
+    · exact ⟨h1, h2⟩
+    · split
+      · obtain ⟨e', es', h3, h4, h5⟩ := hh a e1
+        rw [e2] at h3
+        obtain ⟨rfl, rfl⟩ := List.cons.inj h3
+        dsimp only
+        rw [tableOf_retarget_other a r.core.next e es n m (e2 ▸ hg.dT) h4 h5 hnm, ← e2]
+        exact ⟨h1, h2⟩
+      · exact ⟨h1, h2⟩
+  · exact ⟨h1, h2⟩
+
+/-- **cache_isolation**: in any reachable state an operation that does not name the list `n`
+    (whatever else it names: a prefix of `n`, an extension of `n`, a list sharing files with `n`,
+    a list that fails to compile, and whatever the operation is: load, translate, add a rule that
+    makes the table grow and move) leaves the table handed out for `n` unchanged, in both chains -/
+theorem stepCore_isolation (o : Oracle) (c : Core) (op : Op) (n : Name) (hc : CInv c) (ha : op.avoids n = true) :
+    tableOf (stepCore o c op).core.tr n = tableOf c.tr n ∧
+    tableOf (stepCore o c op).core.disp n = tableOf c.disp n := by
+  cases op with
+  | get t d f =>
+    simp only [Op.avoids, Bool.and_eq_true, bne_iff_ne, ne_eq] at ha
+    have h1 := getTable_other_tr o c t d n ha.1
+    have h2 := getTable_other_disp o c t d n ha.2
+    simp only [stepCore]
+    split
+    · unfold finalizeHead
+      split
+      · rename_i a e es e1 e2
+        split
+        · exact ⟨h1, h2⟩
+        · split
+          · dsimp only; rw [tableOf_setFinal, ← e2]; exact ⟨h1, h2⟩
+          · exact ⟨h1, h2⟩
+      · exact ⟨h1, h2⟩
+    · exact ⟨h1, h2⟩
+  | compileString m ok g =>
+    simp only [Op.avoids, bne_iff_ne, ne_eq] at ha
+    exact compileString_other o c m ok g n hc (fun h => ha h.symm)
+  | scratch e b i sm dm =>
+    obtain ⟨h1, h2, _, _⟩ := scratch_chains c e b i sm dm
+    simp only [stepCore, h1, h2, and_self]
+  | pool b => exact ⟨rfl, rfl⟩
+  | free => exact ⟨rfl, rfl⟩
+
+theorem cache_isolation (o : Oracle) (h : List Op) (op : Op) (n : Name) (ha : op.avoids n = true) :
+    let s := (run o State.init h).1
+    tableOf (step o s op).1.core.tr n = tableOf s.core.tr n ∧
+    tableOf (step o s op).1.core.disp n = tableOf s.core.disp n := by
+  intro s
+  have hc : CInv s.core := run_cinv o h State.init init_cinv
+  cases op with
+  | get t d f => exact stepCore_isolation o s.core _ n hc ha
+  | compileString m ok g => exact stepCore_isolation o s.core _ n hc ha
+  | scratch e b i sm dm => exact stepCore_isolation o s.core _ n hc ha
+  | pool b => cases b <;> (simp only [step]; split <;> exact ⟨rfl, rfl⟩)
+  | free => simp [Op.avoids] at ha
+
+theorem mem_same_table {c : List Entry} (hd : Distinct c) {x y : Entry} (hx : x ∈ c) (hy : y ∈ c)
+    (ht : x.table = y.table) : x = y := by
+  induction c with
+  | nil => simp at hx
+  | cons e es ih =>
+    have hp := List.pairwise_cons.mp hd
+    simp only [List.mem_cons] at hx hy
+    rcases hx with rfl | hx <;> rcases hy with rfl | hy
+    · rfl
+    · exact absurd ht (hp.1 y hy).1
+    · exact absurd ht.symm (hp.1 x hx).1
+    · exact ih hp.2 hx hy
+
+/-- **tables_distinct**: in any reachable state two different list names never share a table —
+    also when one name is a prefix of the other or both name the same files -/
+theorem tables_distinct (o : Oracle) (h : List Op) (n m : Name) (t : Nat) :
+    let s := (run o State.init h).1
+    (tableOf s.core.tr n = some t → tableOf s.core.tr m = some t → n = m) ∧
+    (tableOf s.core.disp n = some t → tableOf s.core.disp m = some t → n = m) := by
+  intro s
+  have hc : CInv s.core := run_cinv o h State.init init_cinv
+  have key : ∀ c : List Entry, Distinct c → tableOf c n = some t → tableOf c m = some t → n = m := by
+    intro c hd hn hm
+    unfold tableOf at hn hm
+    cases h1 : c.find? (·.hit n) with
+    | none => simp [h1] at hn
+    | some x =>
+      cases h2 : c.find? (·.hit m) with
+      | none => simp [h2] at hm
+      | some y =>
+        simp only [h1, h2, Option.map_some, Option.some.injEq] at hn hm
+        have := mem_same_table hd (List.mem_of_find?_eq_some h1) (List.mem_of_find?_eq_some h2) (by rw [hn, hm])
+        subst this
+        exact hit_inj x n m (by simpa using List.find?_some h1) (by simpa using List.find?_some h2)
+  exact ⟨key _ hc.dT, key _ hc.dD⟩
+
+/-- a rule added with `lou_compileString(m, …)` goes into the table that `m` names afterwards, and
+    (by `tables_distinct`) into no table that another name can reach -/
+theorem added_targets_own_table (o : Oracle) (c : Core) (m : Name) (ok grow : Bool) (t : Nat) (b : Bool)
+    (hev : Event.added t b ∈ (compileString o c m ok grow).events) :
+    tableOf (compileString o c m ok grow).core.tr m = some t := by
+  have hh := getTable_head o c m (some m)
+  have hnf : ∀ t b, Event.added t b ∉ (getTable o c (some m) (some m)).events := by
+    intro t b
+    unfold getTable; dsimp only
+    split
+    · simp
+    · split <;> simp
+  unfold compileString at *
+  generalize getTable o c (some m) (some m) = r at *
+  dsimp only at *
+  rcases e1 : r.res.tr with _ | a
+  · simp only [e1] at hev
+    exact absurd hev (hnf _ _)
+  · obtain ⟨e, es, h3, h4, h5⟩ := hh a e1
+    have hfind : tableOf (e :: es) m = some a := by
+      simp [tableOf, h5, h4]
+    simp only [e1, h3] at hev ⊢
+    by_cases hfin : e.finalized = true
+    · rw [if_pos hfin] at hev ⊢
+      simp only [List.mem_append, List.mem_singleton, Event.added.injEq] at hev
+      rcases hev with hev | ⟨rfl, _⟩
+      · exact absurd hev (hnf _ _)
+      · rw [h3]; exact hfind
+    · rw [if_neg hfin] at hev ⊢
+      by_cases hg : grow = true
+      · rw [if_pos hg] at hev ⊢
+        simp only [List.mem_append, List.mem_singleton, Event.added.injEq] at hev
+        rcases hev with hev | ⟨rfl, _⟩
+        · exact absurd hev (hnf _ _)
+        · have h1 : retarget a r.core.next (e :: es) =
+              (if e.table = a then { e with table := r.core.next } else e) :: retarget a r.core.next es := rfl
+          dsimp only
+          rw [h1, if_pos h4]
+          have h6 : ({ e with table := r.core.next } : Entry).hit m = true := by simpa [Entry.hit] using h5
+          simp only [tableOf]
+          rw [List.find?_cons_of_pos (by simpa using h6)]
+          rfl
+      · rw [if_neg hg] at hev ⊢
+        simp only [List.mem_append, List.mem_singleton, Event.added.injEq] at hev
+        rcases hev with hev | ⟨rfl, _⟩
+        · exact absurd hev (hnf _ _)
+        · rw [h3]; exact hfind
+
 end Lou.Cache
